@@ -75,6 +75,8 @@ FnOf(layout, i, nb) ==
     [] layout = "one" -> "b1"
     [] layout = "split" -> IF i = 1 THEN "b1" ELSE "b2"
     [] layout = "tail" -> IF i = 1 THEN "" ELSE "b2"
+    \* every block a function of its own (callers and callees side by side)
+    [] layout = "each" -> BName(i)
 
 \* annotation spec: <<block, disp>> or <<0,0>>
 \* CFI layouts (renderer format: <<disp, <<directive...>>>>, directive = <<name, operands...>>)
@@ -133,6 +135,7 @@ ShapeParams ==
      /\ p.ns \subseteq 1..p.nb /\ Cardinality(p.ns) <= 1 /\ p.tgt \notin p.ns
      /\ (p.ns # {} => TRUE \in NoSyms)
      /\ (p.dft => p.layout = "none")
+     /\ (p.layout = "each" => p.ns = {} /\ \A i \in 1..p.nb : ~IsData(p.tpl[i]))
      /\ (p.layout # "none" => 1 \notin p.ns /\ 2 \notin p.ns)
      /\ (p.am = "none" => p.annAt = <<1, 0>>)
      /\ (p.am # "none" => p.annAt[1] <= p.nb)
